@@ -8,6 +8,7 @@ from props.fanout_common import behaviours
 VARIANTS = [("rtmp", False), ("rtmpmw", False), ("flv", False), ("wsflv", False), ("ts", False), ("wsts", False),
             ("rtsp", False), ("wsrtsp", False), ("flv", True), ("rtmpmw", True), ("rtsp", True)]
 RTSP_HOOK = "pkg/rtsp/verif_hooks_wchan.go"   # VerifSetServerCommandSessionWriteChanSize
+GOP_UNITS = 24   # frames of the cached GOP: many more than any queue under test
 TCP_BOUND_US = 1000000   # real sockets on a shared machine: 1 s (a lingering close under the lock costs seconds)
 BOUND_US = 100000   # delivery / call latency bound of the property: 100 ms
 # frame body lengths (0 = the driver's small / several-chunk pool); the big ones are several times any piece size
@@ -142,12 +143,17 @@ def run(ctx):
                 steps = [{"name": "PubArrive"}, {"name": "Publish", "t": "vsh"}, {"name": "Publish", "t": "ash"},
                          {"name": "Join"}, {"name": "Publish", "t": "key"}]
                 first, firstb, ncmd = False, True, 0
+                # in half of the plain RTSP scenarios the consumers send an RTCP receiver report before every sweep
+                # (a player that has stopped reading still runs its RTCP timer)
+                reports = proto == "rtsp" and ctx.rng.randrange(2) == 0
                 for a in p:
                     if a["name"] == "PublishB" and not two:
                         continue
                     st = {"name": a["name"]}
                     if "c" in a:
                         st["c"] = a["c"]
+                    if a["name"] == "Sweep" and reports:
+                        steps += [{"name": "RR", "c": "s1"}, {"name": "RR", "c": "s2"}]
                     if a["name"] == "Publish":
                         st["t"] = "key" if first else kinds[ctx.rng.randrange(len(kinds))]
                         if st["t"] in ("key", "inter", "aud"):
@@ -183,6 +189,19 @@ def run(ctx):
                         steps.append({"name": "Stat"})
                 scen.append({"sc": len(scen), "cfgId": "%s%s-%d" % (proto, "+B" if two else "", n),
                              "cfg": {"proto": proto, "two": two, "n": n, "boundUs": BOUND_US}, "steps": steps})
+    # ---- a joiner that does not read, on a stream whose GOP cache holds more units than its queue: the cached GOP is
+    # handed to it in one burst under Group.mutex at the first publish after its join; the overflow is dropped in whole
+    # units and neither that call nor any other is held up
+    for n in (1, 2, 3):
+        for proto in ("rtmp", "flv", "wsflv", "ts"):
+            steps = [{"name": "PubArrive"}, {"name": "Publish", "t": "vsh"}, {"name": "Publish", "t": "ash"},
+                     {"name": "Publish", "t": "key"}] + [{"name": "Publish", "t": "inter"} for _ in range(GOP_UNITS - 1)]
+            steps += [{"name": "Join"}, {"name": "Stall", "c": "s1"}, {"name": "Publish", "t": "inter"},
+                      {"name": "Publish", "t": "inter"}, {"name": "Read", "c": "s1"}, {"name": "Publish", "t": "key"},
+                      {"name": "Sweep"}, {"name": "Publish", "t": "inter"}, {"name": "Resume", "c": "s1"},
+                      {"name": "Publish", "t": "inter"}]
+            scen.append({"sc": len(scen), "cfgId": "%s-gop-%d" % (proto, n),
+                         "cfg": {"proto": proto, "two": False, "gop": 1, "n": n, "boundUs": BOUND_US}, "steps": steps})
     # ---- consumers on real loopback TCP connections through the servers' own per-connection routines: the cost of the
     # socket operations lal performs under Group.mutex (close of a stalled consumer by the sweep, kick).  Fixed
     # schedule, judged on measured durations with a bound generous enough for a loaded machine.
